@@ -110,6 +110,23 @@ def biased_acf(x, maxlag):
     return np.array([np.sum(x[k:] * np.conj(x[:n - k])) / n for k in range(maxlag + 1)])
 
 
+def levinson_ref(r, p):
+    """Levinson recursion in extended precision -> (a[1..p], P, k, smallest P met on the way)"""
+    r = np.asarray(r, dtype=np.clongdouble)
+    a = np.zeros(0, dtype=np.clongdouble)
+    P = r[0].real
+    ks = []
+    pmin = P
+    for m in range(1, p + 1):
+        acc = r[m] + np.sum(a * r[m - 1:0:-1]) if m > 1 else r[m]
+        k = -acc / P
+        a = np.concatenate((a + k * np.conj(a[::-1]), [k])) if m > 1 else np.array([k], dtype=np.clongdouble)
+        P = P * (1 - (k * np.conj(k)).real)
+        pmin = min(pmin, P)
+        ks.append(k)
+    return a, P, np.array(ks), pmin
+
+
 def obs_events(chk):
     from spectrum import aryule, lpc
     rng = np.random.RandomState(1200 + chk.seed)
@@ -120,6 +137,9 @@ def obs_events(chk):
     grid = [(N, c, None) for N in sizes for c in (False, True)]
     # strongly predictable records (first reflection coefficient of modulus > 0.99): ramp, slow tone
     grid += [(N, c, kd) for N in (64, 200) for c in (False, True) for kd in (4, 5)]
+    # a smooth pulse that starts and ends near zero (the prediction error falls to 1e-9 of the power while the reflection
+    # coefficients are still of order 0.1), and a fast decaying transient (products of late samples underflow)
+    grid += [(200, c, kd) for c in (False, True) for kd in (6, 7)] + [(64, False, 6), (180, True, 7)]
     for rep in range(reps + len(grid)):
         if rep < len(grid):
             N, cplx, kind_fixed = grid[rep]
@@ -130,7 +150,13 @@ def obs_events(chk):
         p = int(rng.randint(1, min(N - 1, 30) + 1))
         kind = rng.randint(6) if kind_fixed is None else kind_fixed
         t = np.arange(N)
-        if kind == 4:
+        if kind == 6:
+            x = np.sin(np.pi * (t + 1.0) / (N + 1)) ** 2
+            p = 4 + rep % 5
+        elif kind == 7:
+            x = 0.1 ** t * (1.0 + 0.3 * np.cos(0.5 * t))
+            p = 1 + rep % 6
+        elif kind == 4:
             x = t + 1.0 + 0.01 * rng.randn(N)
             p = min(p, 6)
         elif kind == 5:
@@ -146,7 +172,10 @@ def obs_events(chk):
             x = rng.randint(-3, 4, N).astype(float)
             x[0] = 1.0
         if cplx:
-            x = x + 1j * rng.randn(N) * ((0.5 if kind < 3 else 0) if kind != 3 else 0) * (1 if kind < 4 else 0) + (1j * rng.randint(-2, 3, N) if kind == 3 else 0) + (1e-3j * rng.randn(N) if kind >= 4 else 0)
+            if kind in (6, 7):
+                x = x * np.exp(0.2j * t)
+            else:
+                x = x + 1j * rng.randn(N) * ((0.5 if kind < 3 else 0) if kind != 3 else 0) * (1 if kind < 4 else 0) + (1j * rng.randint(-2, 3, N) if kind == 3 else 0) + (1e-3j * rng.randn(N) if kind >= 4 else 0)
         ev = {'ev': 'yw', 'N': N, 'p': p, 'cplx': cplx, 'kind': int(kind)}
         ok, res = call_guard(aryule, x.copy(), p, norm='biased')
         ev['raised'] = not ok
@@ -162,9 +191,18 @@ def obs_events(chk):
             ev['maxk_ppm'] = obs.q(np.max(np.abs(k)), 1e-6)
             ev['ppos'] = bool(np.real(P) > 0)
             ev['lens'] = bool(len(A) == p and len(k) == p)
+            if len(A) == p and len(k) == p:
+                xl = np.asarray(x, dtype=np.clongdouble)
+                rl = np.array([np.sum(xl[m:] * np.conj(xl[:N - m])) / N for m in range(p + 1)])
+                ar_, Pr_, kr_, pmin = levinson_ref(rl, p)
+                allow = 1e-12 * float(rl[0].real / pmin) + 1e-9
+                dev = max(float(np.max(np.abs(np.asarray(k) - kr_.astype(complex)))), abs(float(np.real(P)) - float(Pr_)) / float(Pr_) if Pr_ > 0 else 0.0)
+                ev['k_ratio'] = obs.q(dev / allow, 1e-3)
             if not cplx and p <= N - 1:
                 ok2, l = call_guard(lpc, x.copy(), p)
-                ev['lpc_dev'] = obs.q(np.max(np.abs(np.asarray(l[0]) - A.real)) / max(1.0, np.max(np.abs(A)))) if ok2 else obs.QCAP
+                # (two routes to the same autocorrelation: they agree as far as the conditioning of the record allows)
+                slack = max(1.0, (allow / 1e-9) if 'k_ratio' in ev else 1.0)
+                ev['lpc_dev'] = obs.q(np.max(np.abs(np.asarray(l[0]) - A.real)) / max(1.0, np.max(np.abs(A))) / slack) if ok2 else obs.QCAP
             else:
                 ev['lpc_dev'] = 0
         else:
